@@ -91,6 +91,9 @@ Step(e) ==
          ELSE IF e.res \in {"err", "unsupported"}
          THEN /\ stats' = Bump("errs") /\ UNCHANGED <<map, bad, skip, cfg>>
          ELSE Reject(e, "panic", e.msg) /\ UNCHANGED stats
+    [] e.op = "toggle" ->       \* C19: a configuration change has no effect on the map; it must not panic
+         IF e.res = "panic" THEN Reject(e, "panic", e.msg) /\ UNCHANGED stats
+         ELSE UNCHANGED <<map, bad, skip, cfg, stats>>
     [] e.op = "close" ->
          IF e.res = "ok" THEN UNCHANGED <<map, bad, skip, cfg, stats>>
          ELSE Reject(e, IF e.res = "panic" THEN "panic" ELSE "close-failed", e.msg) /\ UNCHANGED stats
